@@ -1,4 +1,5 @@
 import NurbsVerif.Lemmas.InsertModel
+import NurbsVerif.Lemmas.InsertAll
 import NurbsVerif.Model.Shape
 import Mathlib.Data.List.Perm.Basic
 
@@ -29,6 +30,30 @@ theorem insert_preserves_curve_point (p : ℕ) (Ul : List K) (P : List (List K))
     (curvePointAt p (fnOf (knotInsertionKv Ul ub k r)) (knotInsertion p (fnOf Ul) P ub r s k) κ' u).getD j 0
       = (curvePointAt p (fnOf Ul) P κ u).getD j 0 :=
   knotInsertion_preserves_point p Ul P ub u r s k κ κ' d j hP hm hlen hk1 hk2 hmult hκ hκ' hr1 hrs hpk hkP hpκ hκP hcase
+
+/-- **Shape preservation as a function of the parameter.**  With the spans the library's own linear
+    search finds before and after, for EVERY parameter of the domain (both ends included) and every
+    coordinate, the curve point is unchanged by the insertion. -/
+theorem insert_preserves_curve (p : ℕ) (Ul : List K) (P : List (List K)) (ub u : K)
+    (r s d j : ℕ) (hP : NetOk d P)
+    (hm : Monotone (fnOf Ul)) (hlen : Ul.length = P.length + p + 1) (hpn : p + 1 ≤ P.length)
+    (hub1 : fnOf Ul p ≤ ub) (hub2 : ub < fnOf Ul P.length)
+    (hmult : ∀ x, findSpanLinear p (fnOf Ul) P.length ub - s < x → x ≤ findSpanLinear p (fnOf Ul) P.length ub → fnOf Ul x = ub)
+    (hr1 : 1 ≤ r) (hrs : r + s ≤ p)
+    (hlo : fnOf Ul p ≤ u) (hhi : u ≤ fnOf Ul P.length) (hlast : fnOf Ul (P.length - 1) < fnOf Ul P.length) :
+    (curvePoint p (fnOf (knotInsertionKv Ul ub (findSpanLinear p (fnOf Ul) P.length ub) r))
+        (knotInsertion p (fnOf Ul) P ub r s (findSpanLinear p (fnOf Ul) P.length ub)) u).getD j 0
+      = (curvePoint p (fnOf Ul) P u).getD j 0 :=
+  knotInsertion_preserves_curve p Ul P ub u r s d j hP hm hlen hpn hub1 hub2 hmult hr1 hrs hlo hhi hlast
+
+/-- **Any sequence of admissible insertions** (each request admissible in the state it is applied to:
+    `ReqsOk`) leaves every point of a well-formed curve unchanged, and well-formedness is preserved. -/
+theorem insert_sequence_preserves (p d : ℕ) (reqs : List (K × ℕ × ℕ)) (st : List K × List (List K))
+    (hwf : CurveWF p d st.1 st.2) (hok : ReqsOk p st reqs) (u : K)
+    (hlo : fnOf st.1 p ≤ u) (hhi : u ≤ fnOf st.1 st.2.length) (j : ℕ) :
+    (curvePoint p (fnOf (reqs.foldl (insStep p) st).1) (reqs.foldl (insStep p) st).2 u).getD j 0
+      = (curvePoint p (fnOf st.1) st.2 u).getD j 0 :=
+  insert_sequence_preserves_curve p d reqs st hwf hok u hlo hhi j
 
 /-- The knot vector gains exactly `r` entries … -/
 theorem insertKv_length (U : List K) (u : K) (k r : ℕ) : (knotInsertionKv U u k r).length = U.length + r := by
@@ -68,5 +93,24 @@ theorem insert_rejected (S : Shape K) (dir : ℕ) (u : K) (r : ℕ) (tol : K)
 /-- non-vacuity: cubic, knots 0,0,0,0,1/2,1,1,1,1, insert 1/4 once into span 3, evaluate on span 3 -/
 example : (fnOf ([0,0,0,0,1/2,1,1,1,1] : List ℚ)) 3 ≤ 1/4 ∧ (1/4 : ℚ) < fnOf ([0,0,0,0,1/2,1,1,1,1] : List ℚ) 4 := by
   simp [fnOf]; norm_num
+
+/-- non-vacuity of the sequence theorem: a quadratic with knots 0,0,0,1,1,1 is well formed … -/
+example : CurveWF 2 2 ([0,0,0,1,1,1] : List ℚ) [[0,0],[1,2],[2,0]] where
+  mono := by
+    apply monotone_nat_of_le_succ
+    intro n
+    rcases n with _|_|_|_|_|_|n <;> simp [fnOf, List.getD]
+  len := by simp
+  pn := by simp
+  last := by simp [fnOf, List.getD]
+  net := by intro pt hpt; simp at hpt; rcases hpt with h | h | h <;> simp [h]
+
+/-- … and inserting 1/2 once (multiplicity 0) is an admissible request in that state -/
+example : ReqOk 2 (([0,0,0,1,1,1] : List ℚ), [[0,0],[1,2],[2,0]]) (1/2, 1, 0) := by
+  refine ⟨by simp [fnOf, List.getD], by simp [fnOf, List.getD]; norm_num, ?_, by simp, by simp⟩
+  intro x h1 h2
+  exfalso
+  simp only [Nat.sub_zero] at h1
+  exact absurd h2 (not_le.mpr h1)
 
 end C04
